@@ -2,6 +2,7 @@ package c02
 
 import (
 	"errors"
+	"fmt"
 	"math/big"
 
 	"github.com/wollac/iota-crypto-demo/pkg/slip10"
@@ -27,6 +28,15 @@ func (c *counter) tick() {
 
 var errPermanent = errors.New("permanent curve failure (harness)")
 
+// invalidKey is how a toy curve reports "this candidate is not a valid key": the bare sentinel or,
+// like a curve implementation that adds context, an error wrapping it (errors.Is still holds).
+func invalidKey(wrap bool, what string) error {
+	if wrap {
+		return fmt.Errorf("toy curve: %s rejected: %w", what, slip10.ErrInvalidKey)
+	}
+	return slip10.ErrInvalidKey
+}
+
 // fault injection: the failAt-th call (1-based) of the selected method returns errPermanent.
 type fault struct {
 	inNew   int // NewPrivateKey call number that fails permanently (0 = never)
@@ -36,6 +46,7 @@ type fault struct {
 // ---- toy Weierstrass curve: P-256 arithmetic, extra validity mask ----
 
 type toyW struct {
+	wrap   bool
 	mask   byte
 	cnt    *counter
 	fault  fault
@@ -52,11 +63,11 @@ func (t *toyW) NewPrivateKey(buf []byte) (slip10.Key, error) {
 		return nil, errPermanent
 	}
 	if buf[31]&t.mask != 0 {
-		return nil, slip10.ErrInvalidKey
+		return nil, invalidKey(t.wrap, "candidate")
 	}
 	k := new(big.Int).SetBytes(buf)
 	if k.Sign() == 0 || k.Cmp(secp.P256.N) >= 0 {
-		return nil, slip10.ErrInvalidKey
+		return nil, invalidKey(t.wrap, "scalar")
 	}
 	return &toyWPriv{k, t}, nil
 }
@@ -78,15 +89,15 @@ func (p *toyWPriv) Shift(buf []byte) (slip10.Key, error) {
 		return nil, errPermanent
 	}
 	if buf[31]&p.c.mask != 0 {
-		return nil, slip10.ErrInvalidKey
+		return nil, invalidKey(p.c.wrap, "shift")
 	}
 	v := new(big.Int).SetBytes(buf)
 	if v.Cmp(secp.P256.N) >= 0 {
-		return nil, slip10.ErrInvalidKey
+		return nil, invalidKey(p.c.wrap, "result")
 	}
 	v.Add(v, p.k).Mod(v, secp.P256.N)
 	if v.Sign() == 0 {
-		return nil, slip10.ErrInvalidKey
+		return nil, invalidKey(p.c.wrap, "result")
 	}
 	return &toyWPriv{v, p.c}, nil
 }
@@ -106,15 +117,15 @@ func (p *toyWPub) Shift(buf []byte) (slip10.Key, error) {
 		return nil, errPermanent
 	}
 	if buf[31]&p.c.mask != 0 {
-		return nil, slip10.ErrInvalidKey
+		return nil, invalidKey(p.c.wrap, "shift")
 	}
 	v := new(big.Int).SetBytes(buf)
 	if v.Cmp(secp.P256.N) >= 0 {
-		return nil, slip10.ErrInvalidKey
+		return nil, invalidKey(p.c.wrap, "result")
 	}
 	q := secp.P256.Add(secp.P256.BaseMul(v), p.p)
 	if q.Inf {
-		return nil, slip10.ErrInvalidKey
+		return nil, invalidKey(p.c.wrap, "result")
 	}
 	return &toyWPub{q, p.c}, nil
 }
@@ -122,6 +133,7 @@ func (p *toyWPub) Shift(buf []byte) (slip10.Key, error) {
 // ---- toy string curve: key = 32-byte string (like ed25519), extra validity mask ----
 
 type toyS struct {
+	wrap   bool
 	mask   byte
 	cnt    *counter
 	fault  fault
@@ -138,7 +150,7 @@ func (t *toyS) NewPrivateKey(buf []byte) (slip10.Key, error) {
 		return nil, errPermanent
 	}
 	if buf[31]&t.mask != 0 {
-		return nil, slip10.ErrInvalidKey
+		return nil, invalidKey(t.wrap, "candidate")
 	}
 	return &toySKey{append([]byte{}, buf...), true, t}, nil
 }
@@ -164,7 +176,7 @@ func (k *toySKey) Shift(buf []byte) (slip10.Key, error) {
 		return nil, errPermanent
 	}
 	if buf[31]&k.c.mask != 0 {
-		return nil, slip10.ErrInvalidKey
+		return nil, invalidKey(k.c.wrap, "shift")
 	}
 	if k.priv {
 		return &toySKey{append([]byte{}, buf...), true, k.c}, nil
